@@ -167,8 +167,11 @@ func (i *interpreter) jsonEnc(fr *frame, buf *bytes.Buffer, t types.Type, v valu
 			if f.Embedded() {
 				panic(engineAbort{abInconclusive, "json model: embedded struct field"})
 			}
-			if strings.Contains(opts, "omitempty") || strings.Contains(opts, "string") {
+			if strings.Contains(opts, "string") {
 				panic(engineAbort{abInconclusive, "json model: tag option " + opts})
+			}
+			if strings.Contains(opts, "omitempty") && jsonEmpty(s[k]) {
+				continue
 			}
 			if !first {
 				buf.WriteByte(',')
@@ -416,4 +419,28 @@ func kindOfJSON(raw []byte) string {
 		return "bool"
 	}
 	return "number"
+}
+
+// jsonEmpty: encoding/json's notion of an empty value for omitempty.
+func jsonEmpty(v value) bool {
+	switch x := v.(type) {
+	case bool:
+		return !x
+	case string:
+		return x == ""
+	case *value:
+		return x == nil
+	case []value:
+		return len(x) == 0
+	case *omap:
+		return x.len() == 0
+	case iface:
+		return x.t == nil
+	case sym:
+		panic(engineAbort{abInconclusive, "symbolic scalar reached the JSON model (omitempty)"})
+	}
+	if _, bits, ok := concKind(v); ok {
+		return bits == 0
+	}
+	return false
 }
